@@ -75,7 +75,11 @@ Definition e_fuel : N := 3.               (* allocator out of fuel - never happe
 Definition e_parse : N := 10.             (* the request does not parse *)
 Definition e_not_update : N := 11.        (* "expected a SPARQL Update operation" *)
 
-Fixpoint m_term (insert : bool) (sol : solution) (t : tterm) (bl : blmap) (st : istate)
+(* instantiate_term.  `pred` says that the term stands in predicate position (of the template quad or
+   of a quoted triple): there template_predicate_lexeme turns the keyword `a` into rdf:type.  `kwa` is
+   that meaning of `a`; the code is the instance kwa = rdf_type (exec_update below), the instance
+   kwa = a_word is the executor before the repair 67601f1 (kept for the regression lemma). *)
+Fixpoint m_term (kwa : term) (pred insert : bool) (sol : solution) (t : tterm) (bl : blmap) (st : istate)
   : istate * blmap * ires (option term) :=
   match t with
   | TVar v => (st, bl, IOut (lookup v sol))
@@ -89,17 +93,18 @@ Fixpoint m_term (insert : bool) (sol : solution) (t : tterm) (bl : blmap) (st : 
                      end
            end
   | TConst c => (encode c st, bl, IOut (Some c))
-  | TKwA => (encode a_word st, bl, IOut (Some a_word))   (* compile_term("a"): the word itself, also in predicate position *)
+  | TKwA => let c := if pred then kwa else a_word in      (* elsewhere compile_term("a") is the word itself *)
+            (encode c st, bl, IOut (Some c))
   | TQuoted s p o =>                                     (* components left to right; the first unbound one ends it *)
-    match m_term insert sol s bl st with
+    match m_term kwa false insert sol s bl st with
     | (st1, bl1, IErr e) => (st1, bl1, IErr e)
     | (st1, bl1, IOut None) => (st1, bl1, IOut None)
     | (st1, bl1, IOut (Some s')) =>
-      match m_term insert sol p bl1 st1 with
+      match m_term kwa true insert sol p bl1 st1 with
       | (st2, bl2, IErr e) => (st2, bl2, IErr e)
       | (st2, bl2, IOut None) => (st2, bl2, IOut None)
       | (st2, bl2, IOut (Some p')) =>
-        match m_term insert sol o bl2 st2 with
+        match m_term kwa false insert sol o bl2 st2 with
         | (st3, bl3, IErr e) => (st3, bl3, IErr e)
         | (st3, bl3, IOut None) => (st3, bl3, IOut None)
         | (st3, bl3, IOut (Some o')) => (st3, bl3, IOut (Some (Qt s' p' o')))
@@ -110,19 +115,19 @@ Fixpoint m_term (insert : bool) (sol : solution) (t : tterm) (bl : blmap) (st : 
 
 (* instantiate_quad: subject, predicate, object, graph in this order; the legality filters apply to
    variable positions and to quoted-triple values; an unbound variable or an illegal value drops the quad (Ok(None)) *)
-Definition m_quad (insert : bool) (D : dataset) (sol : solution) (q : tquad) (bl : blmap) (st : istate)
+Definition m_quad (kwa : term) (insert : bool) (D : dataset) (sol : solution) (q : tquad) (bl : blmap) (st : istate)
   : istate * blmap * ires (option quad) :=
-  match m_term insert sol (tq_s q) bl st with
+  match m_term kwa false insert sol (tq_s q) bl st with
   | (st1, bl1, IErr e) => (st1, bl1, IErr e)
   | (st1, bl1, IOut None) => (st1, bl1, IOut None)
   | (st1, bl1, IOut (Some s)) =>
     if (is_tvar (tq_s q) || is_qt s) && negb (legal_subject D s) then (st1, bl1, IOut None) else
-    match m_term insert sol (tq_p q) bl1 st1 with
+    match m_term kwa true insert sol (tq_p q) bl1 st1 with
     | (st2, bl2, IErr e) => (st2, bl2, IErr e)
     | (st2, bl2, IOut None) => (st2, bl2, IOut None)
     | (st2, bl2, IOut (Some p)) =>
       if is_tvar (tq_p q) && negb (legal_predicate D p) then (st2, bl2, IOut None) else
-      match m_term insert sol (tq_o q) bl2 st2 with
+      match m_term kwa false insert sol (tq_o q) bl2 st2 with
       | (st3, bl3, IErr e) => (st3, bl3, IErr e)
       | (st3, bl3, IOut None) => (st3, bl3, IOut None)
       | (st3, bl3, IOut (Some o)) =>
@@ -142,28 +147,28 @@ Definition m_quad (insert : bool) (D : dataset) (sol : solution) (q : tquad) (bl
   end.
 
 (* instantiate_templates: per solution a fresh blank-node map; results collected in a BTreeSet *)
-Fixpoint m_solution (insert : bool) (D : dataset) (sol : solution) (tqs : list tquad) (bl : blmap) (st : istate)
+Fixpoint m_solution (kwa : term) (insert : bool) (D : dataset) (sol : solution) (tqs : list tquad) (bl : blmap) (st : istate)
   (acc : list quad) : istate * blmap * ires (list quad) :=
   match tqs with
   | [] => (st, bl, IOut acc)
   | q :: r =>
-    match m_quad insert D sol q bl st with
+    match m_quad kwa insert D sol q bl st with
     | (st1, bl1, IErr e) => (st1, bl1, IErr e)
-    | (st1, bl1, IOut None) => m_solution insert D sol r bl1 st1 acc
-    | (st1, bl1, IOut (Some x)) => m_solution insert D sol r bl1 st1 (add_end quad_eqb acc x)
+    | (st1, bl1, IOut None) => m_solution kwa insert D sol r bl1 st1 acc
+    | (st1, bl1, IOut (Some x)) => m_solution kwa insert D sol r bl1 st1 (add_end quad_eqb acc x)
     end
   end.
 
 (* the second component is ghost output: the final blank-node map of every solution, in order *)
-Fixpoint m_templates (insert : bool) (D : dataset) (sols : list solution) (tqs : list tquad) (st : istate)
+Fixpoint m_templates (kwa : term) (insert : bool) (D : dataset) (sols : list solution) (tqs : list tquad) (st : istate)
   (acc : list quad) : istate * list blmap * ires (list quad) :=
   match sols with
   | [] => (st, [], IOut acc)
   | sol :: r =>
-    match m_solution insert D sol tqs [] st acc with
+    match m_solution kwa insert D sol tqs [] st acc with
     | (st1, bl1, IErr e) => (st1, [bl1], IErr e)
     | (st1, bl1, IOut acc1) =>
-      match m_templates insert D r tqs st1 acc1 with
+      match m_templates kwa insert D r tqs st1 acc1 with
       | (st2, tbl, res) => (st2, bl1 :: tbl, res)
       end
     end
@@ -190,20 +195,23 @@ Section Exec.
 
   (* execute_update_operation / execute_modify: one WHERE evaluation, both template sets instantiated
      from the same solution sequence and the same pre-operation dataset, then apply_mutations *)
-  Definition exec_update (u : update wh) (s : state) : state * outcome * list blmap :=
+  Definition exec_update_gen (kwa : term) (u : update wh) (s : state) : state * outcome * list blmap :=
     let D := den s in
     let st1 := compile_where (u_where u) (IS (dict s) (next s)) in
     let sols := u_sols eval_where u D in
-    match m_templates false D sols (u_del u) st1 [] with
+    match m_templates kwa false D sols (u_del u) st1 [] with
     | (st2, _, IErr e) => (with_istate s st2, Rejected e, [])
     | (st2, _, IOut dels) =>
-      match m_templates true D sols (u_ins u) st2 [] with
+      match m_templates kwa true D sols (u_ins u) st2 [] with
       | (st3, tbl, IErr e) => (with_istate s st3, Rejected e, tbl)
       | (st3, tbl, IOut inss) =>
         let r := apply_mutations dels inss D in
         (St (dq (fst r)) (dc (fst r)) (i_dict st3) (i_next st3) (pfx s), Done (fst (snd r)) (snd (snd r)), tbl)
       end
     end.
+
+  (* the executor: the keyword `a` in predicate position of a template is rdf:type *)
+  Definition exec_update := exec_update_gen rdf_type.
 
   (* parser.rs: sparql_update_core's checks on the quad blocks; sparql_graph_name accepts only a
      variable, an IRI or a prefixed name *)
